@@ -455,6 +455,17 @@ LZ4IO_openDstFile(const char* dstFileName, const LZ4IO_prefs_t* const prefs)
     return f;
 }
 
+/** LZ4IO_closeDstFile() :
+ *  buffered output only reaches its destination when the stream is closed (or flushed) :
+ *  a failure at this stage (disk full, ...) is a write error.
+ *  stdout is not closed, it is flushed instead. */
+static void
+LZ4IO_closeDstFile(FILE* dstFile, const char* dstFileName)
+{
+    int const err = LZ4IO_isStdout(dstFileName) ? fflush(dstFile) : fclose(dstFile);
+    if (err) END_PROCESS(36, "Write error : cannot complete %s : %s", dstFileName, strerror(errno));
+}
+
 
 /***************************************
 *   MT I/O
@@ -904,7 +915,7 @@ _cfl_clean:
     TPool_free(wPool);
     TPool_free(tPool);
     if (finput) fclose(finput);
-    if (foutput && !LZ4IO_isStdout(output_filename)) fclose(foutput);  /* do not close stdout */
+    if (foutput) LZ4IO_closeDstFile(foutput, output_filename);  /* does not close stdout */
 
     return clResult;
 }
@@ -1341,7 +1352,7 @@ LZ4IO_compressFilename_extRess_MT(unsigned long long* inStreamSize,
 
     /* Release file handlers */
     fclose (srcFile);
-    if (!LZ4IO_isStdout(dstFileName)) fclose(dstFile);  /* do not close stdout */
+    LZ4IO_closeDstFile(dstFile, dstFileName);  /* does not close stdout */
 
     /* Copy owner, file permissions and modification time */
     {   stat_t statbuf;
@@ -1471,7 +1482,7 @@ LZ4IO_compressFilename_extRess_ST(unsigned long long* inStreamSize,
 
     /* Release file handlers */
     fclose (srcFile);
-    if (!LZ4IO_isStdout(dstFileName)) fclose(dstFile);  /* do not close stdout */
+    LZ4IO_closeDstFile(dstFile, dstFileName);  /* does not close stdout */
 
     /* Copy owner, file permissions and modification time */
     {   stat_t statbuf;
@@ -2437,10 +2448,7 @@ LZ4IO_decompressSrcFile(unsigned long long* outGenSize,
 
     /* Close input */
     fclose(finput);
-    if (prefs->removeSrcFile && result == 0) {  /* --rm : only after a successful decoding */
-        if (remove(input_filename))
-            END_PROCESS(45, "Remove error : %s: %s", input_filename, strerror(errno));
-    }
+    /* note : --rm is applied by the caller, once the destination is complete */
 
     /* Final Status */
     DISPLAYLEVEL(2, "\r%79s\r", "");
@@ -2451,6 +2459,16 @@ LZ4IO_decompressSrcFile(unsigned long long* outGenSize,
     return result;
 }
 
+
+/* --rm : only after a successful decoding, and after the destination is complete */
+static void
+LZ4IO_removeDecodedSrcFile(const char* input_filename, const LZ4IO_prefs_t* const prefs)
+{
+    if (prefs->removeSrcFile) {
+        if (remove(input_filename))
+            END_PROCESS(45, "Remove error : %s: %s", input_filename, strerror(errno));
+    }
+}
 
 static int
 LZ4IO_decompressDstFile(unsigned long long* outGenSize,
@@ -2472,7 +2490,9 @@ LZ4IO_decompressDstFile(unsigned long long* outGenSize,
     ress.dstFile = foutput;
     result = LZ4IO_decompressSrcFile(outGenSize, ress, input_filename, output_filename, prefs);
 
-    fclose(foutput);
+    if (fclose(foutput))
+        END_PROCESS(36, "Write error : cannot complete %s : %s", output_filename, strerror(errno));
+    if (result == 0) LZ4IO_removeDecodedSrcFile(input_filename, prefs);
 
     /* Copy owner, file permissions and modification time */
     if ( stat_result != 0
@@ -2532,7 +2552,13 @@ int LZ4IO_decompressMultipleFilenames(
         size_t const ifnSize = strlen(inFileNamesTable[i]);
         const char* const suffixPtr = inFileNamesTable[i] + ifnSize - suffixSize;
         if (LZ4IO_isStdout(suffix) || LZ4IO_isDevNull(suffix)) {
-            missingFiles += LZ4IO_decompressSrcFile(&processed, ress, inFileNamesTable[i], suffix, prefs);
+            int const failed = LZ4IO_decompressSrcFile(&processed, ress, inFileNamesTable[i], suffix, prefs);
+            if (!failed) {
+                if (fflush(ress.dstFile))
+                    END_PROCESS(36, "Write error : cannot complete %s : %s", suffix, strerror(errno));
+                LZ4IO_removeDecodedSrcFile(inFileNamesTable[i], prefs);
+            }
+            missingFiles += failed;
             totalProcessed += processed;
             continue;
         }
